@@ -157,3 +157,128 @@ Proof.
   destruct (emit_module_skeleton _ _ _ _ Hx) as [Hn _]. rewrite Hn.
   unfold find_ndef in F. apply find_some in F as [_ F]. now apply str_eqb_spec in F.
 Qed.
+
+(* ---------- assignment instances (lifting C04_assign_roundtrip to emit_assign) ---------- *)
+From SV Require Import Proofs.VerilogAssign.
+
+(* an assignment instance whose pins carry what the reader made of "assign lhs = rhs" (any widths, equal or not, any
+   bases) is written by emit as one slice per side, and the reader makes of that text the same pins again *)
+Lemma emit_assign_inverse d prs pins lhs rhs :
+  prs <> [] -> assign_wires d prs = WOk pins ->
+  atom_typed (def_env d) lhs -> atom_typed (def_env d) rhs ->
+  read_assign (def_env d) lhs rhs = Some pins ->
+  exists co bo ci bi,
+    emit_assign d prs = WOk (IAssign (piece_atom d (co, bo)) (piece_atom d (ci, bi))) /\
+    read_assign (def_env d) (brk_atom co bo) (brk_atom ci bi) = Some pins.
+Proof.
+  intros Hne Hw Hl Hr Hread.
+  destruct (assign_roundtrip_lemma (def_env d) lhs rhs Hl Hr) as [pins' [co [bo [ci [bi [R1 [Wr R2]]]]]]].
+  rewrite Hread in R1. inversion R1; subst pins'.
+  exists co, bo, ci, bi. split; [|exact R2].
+  unfold emit_assign. destruct prs as [|x r]; [contradiction|]. rewrite Hw. cbn [wbind]. rewrite Wr. reflexivity.
+Qed.
+
+(* the document atom emit prints is the reader's atom with the cable number printed as its name *)
+Lemma piece_atom_name d c b :
+  atom_name (piece_atom d (c, b)) = cable_name d (atom_cable (brk_atom c b)) /\
+  atom_l (piece_atom d (c, b)) = fst (read_brackets b) /\ atom_r (piece_atom d (c, b)) = snd (read_brackets b).
+Proof. destruct b; simpl; repeat split; reflexivity. Qed.
+
+(* ---------- whatever the writer writes for an assignment instance, the reader reads as the same pins ---------- *)
+Lemma write_brackets_atom e c l h b : l <= h ->
+  write_brackets (fst (e c)) (Z.of_nat (snd (e c))) (Some l) (Some h) = Some b ->
+  atom_typed e (brk_atom c b) /\ atom_cable (brk_atom c b) = c /\ alo e (brk_atom c b) = l /\ ahi e (brk_atom c b) = h.
+Proof.
+  intros Hlh. unfold write_brackets, atom_typed, opt_is, inb.
+  set (lo := fst (e c)). set (n := snd (e c)).
+  destruct (Z.eqb_spec (Z.of_nat n) 0) as [|Hn0]; [discriminate|].
+  destruct (Z.eqb_spec (Z.of_nat n) 1) as [Hn1|Hn1].
+  - destruct (Z.eqb_spec l lo) as [->|]; cbn [andb]; [|discriminate].
+    destruct (Z.eqb_spec h (lo + Z.of_nat n - 1)) as [->|]; [|discriminate].
+    intro H. inversion H; subst b. cbn [brk_atom atom_cable alo ahi]. fold lo n. repeat split; try lia.
+  - destruct (Z.eqb_spec l lo) as [->|Hl]; cbn [andb].
+    + destruct (Z.eqb_spec h (lo + Z.of_nat n - 1)) as [->|Hh].
+      * intro H. inversion H; subst b. cbn [brk_atom atom_cable alo ahi]. fold lo n. repeat split; try lia.
+      * destruct (Z.eqb_spec lo h) as [<-|Hne].
+        -- destruct ((lo <=? lo) && (lo <=? lo + Z.of_nat n - 1)) eqn:I; [|discriminate].
+           intro H. inversion H; subst b. cbn [brk_atom atom_cable alo ahi]. fold lo n.
+           apply andb_true_iff in I as [I1 I2]. apply Z.leb_le in I1, I2. repeat split; try lia.
+        -- destruct ((lo <=? lo) && (lo <=? lo + Z.of_nat n - 1) && ((lo <=? h) && (h <=? lo + Z.of_nat n - 1))) eqn:I; [|discriminate].
+           intro H. inversion H; subst b. cbn [brk_atom atom_cable alo ahi]. fold lo n.
+           apply andb_true_iff in I as [I1 I2]. apply andb_true_iff in I1 as [I1 I3]. apply andb_true_iff in I2 as [I2 I4].
+           apply Z.leb_le in I1, I2, I3, I4. repeat split; try lia.
+    + destruct (Z.eqb_spec l h) as [<-|Hne].
+      * destruct ((lo <=? l) && (l <=? lo + Z.of_nat n - 1)) eqn:I; [|discriminate].
+        intro H. inversion H; subst b. cbn [brk_atom atom_cable alo ahi]. fold lo n.
+        apply andb_true_iff in I as [I1 I2]. apply Z.leb_le in I1, I2. repeat split; try lia.
+      * destruct ((lo <=? l) && (l <=? lo + Z.of_nat n - 1) && ((lo <=? h) && (h <=? lo + Z.of_nat n - 1))) eqn:I; [|discriminate].
+        intro H. inversion H; subst b. cbn [brk_atom atom_cable alo ahi]. fold lo n.
+        apply andb_true_iff in I as [I1 I2]. apply andb_true_iff in I1 as [I1 I3]. apply andb_true_iff in I2 as [I2 I4].
+        apply Z.leb_le in I1, I2, I3, I4. repeat split; try lia.
+Qed.
+
+Lemma not_concat_run c i0 (r : list wire) :
+  is_pinset_concatenated (Some c) (map Some ((c, i0) :: r)) = false -> (c, i0) :: r = wrun c i0 (S (length r)).
+Proof.
+  unfold is_pinset_concatenated. cbn [map concat_scan]. rewrite Nat.eqb_refl. cbn [negb andb orb].
+  intro H.
+  assert (H' : concat_scan (Some c) false (Some i0) (map Some r ++ repeat None 0) = false)
+    by (cbn [repeat]; rewrite app_nil_r; exact H).
+  clear H. rename H' into H. apply scan_false_consec in H. rewrite wrun_S. f_equal. unfold consec in H. exact H.
+Qed.
+
+Lemma first_cable_of_run c c' i0 (r : list wire) :
+  is_pinset_concatenated (Some c) (map Some ((c', i0) :: r)) = false -> c' = c.
+Proof.
+  unfold is_pinset_concatenated. cbn [map concat_scan]. destruct (Nat.eqb_spec c' c); [trivial|]. cbn. discriminate.
+Qed.
+
+Lemma combine_fst_snd {A B} (l : list (A * B)) : combine (map fst l) (map snd l) = l.
+Proof. induction l as [|[a b] l IH]; cbn; [reflexivity|]. now rewrite IH. Qed.
+
+(* for EVERY list of pins: when _write_assignment writes (does not raise), the two slices are read back by the
+   reader's assign as exactly these pins, pin by pin (C04_assign_roundtrip without the premise that the pins come
+   from a reading) *)
+Lemma write_assign_reread e pins co bo ci bi :
+  write_assign e pins = Some ((co, bo), (ci, bi)) ->
+  read_assign e (brk_atom co bo) (brk_atom ci bi) = Some pins.
+Proof.
+  unfold write_assign. cbv zeta.
+  destruct (map snd pins) as [|[ci' i0] ri] eqn:Ei; [discriminate|].
+  destruct (map fst pins) as [|[co' o0] ro] eqn:Eo; [discriminate|].
+  cbv beta iota.
+  match goal with |- context [is_pinset_concatenated ?a ?b] => destruct (is_pinset_concatenated a b) eqn:Ni end; [discriminate|].
+  match goal with |- context [is_pinset_concatenated ?a ?b] => destruct (is_pinset_concatenated a b) eqn:No end; [discriminate|].
+  apply not_concat_run in Ni. apply not_concat_run in No.
+  assert (Hlen : length ro = length ri).
+  { assert (L1 : length (map fst pins) = length (map snd pins)) by (rewrite !map_length; reflexivity).
+    rewrite Ei, Eo in L1. cbn in L1. lia. }
+  assert (LLi : last ((ci', i0) :: ri) (ci', i0) = (ci', i0 + Z.of_nat (S (length ri)) - 1))
+    by (rewrite Ni at 1; apply wrun_last; lia).
+  assert (LLo : last ((co', o0) :: ro) (co', o0) = (co', o0 + Z.of_nat (S (length ro)) - 1))
+    by (rewrite No at 1; apply wrun_last; lia).
+  unfold wire in *. rewrite LLi, LLo. cbn [snd].
+  destruct (write_brackets (fst (e co')) (Z.of_nat (snd (e co'))) (Some o0) (Some (o0 + Z.of_nat (S (length ro)) - 1))) as [bo'|] eqn:Wo; [|discriminate].
+  destruct (write_brackets (fst (e ci')) (Z.of_nat (snd (e ci'))) (Some i0) (Some (i0 + Z.of_nat (S (length ri)) - 1))) as [bi'|] eqn:Wi; [|discriminate].
+  intro H.
+  inversion H; subst co' bo' ci' bi'.
+  apply write_brackets_atom in Wo; [|lia]. apply write_brackets_atom in Wi; [|lia].
+  destruct Wo as (To & Co & Lo & Ho). destruct Wi as (Ti & Ci & Li & Hi).
+  rewrite (read_assign_run e _ _ To Ti). unfold awidth. rewrite Co, Ci, Lo, Li, Ho, Hi.
+  replace (Z.to_nat (o0 + Z.of_nat (S (length ro)) - 1 - o0 + 1)) with (S (length ro)) by lia.
+  replace (Z.to_nat (i0 + Z.of_nat (S (length ri)) - 1 - i0 + 1)) with (S (length ri)) by lia.
+  rewrite Hlen, Nat.min_id. rewrite <- Ni. rewrite <- Hlen, <- No. rewrite <- Ei, <- Eo. f_equal. apply combine_fst_snd.
+Qed.
+
+(* ... and at the level of emit: every assignment instance emit writes is read back as the same pins *)
+Lemma emit_assign_reread d prs lhs rhs :
+  emit_assign d prs = WOk (IAssign lhs rhs) ->
+  exists pins co bo ci bi,
+    assign_wires d prs = WOk pins /\ lhs = piece_atom d (co, bo) /\ rhs = piece_atom d (ci, bi) /\
+    read_assign (def_env d) (brk_atom co bo) (brk_atom ci bi) = Some pins.
+Proof.
+  unfold emit_assign. destruct prs as [|x r]; [discriminate|].
+  destruct (assign_wires d (x :: r)) as [pins| |] eqn:W; try discriminate. cbn [wbind].
+  destruct (write_assign (def_env d) pins) as [[[co bo] [ci bi]]|] eqn:Wr; [|discriminate].
+  intro H. inversion H; subst. exists pins, co, bo, ci, bi. repeat split. now apply write_assign_reread.
+Qed.
